@@ -145,6 +145,17 @@ fn p_grp_alias_order() {
 }
 #[kani::proof]
 #[kani::unwind(14)]
+fn p_grp_case_order() {
+    type GC2<I> = GCaseContainer<CBox<'static, I>, NoContext>;
+    let x: u64 = kani::any();
+    let g: GCaseBaseBox<Imp> = From::from(CBox::from(Imp { v: x }));
+    let w = words(&g);
+    assert!(w[0] == <&TzedVtbl<GC2<Imp>>>::default() as *const _ as usize && w[1] == <&TabcVtbl<GC2<Imp>>>::default() as *const _ as usize, "C04 mandatory slots follow the plain identifier order (MAb before Maa)");
+    assert!(w[2] == <&TyopVtbl<GC2<Imp>>>::default() as *const _ as usize && w[3] == <&TbopVtbl<GC2<Imp>>>::default() as *const _ as usize, "C04 optional slots follow the plain identifier order (OPb before Opa)");
+    kani::cover!(true, "end");
+}
+#[kani::proof]
+#[kani::unwind(14)]
 fn p_grp_ctx() {
     let x: u64 = kani::any();
     let ctx = CArc::from(x);
